@@ -619,8 +619,19 @@ def genInvalidCases (seed n : Nat) : List String := Id.run do
             let ch ← (do let st ← chance 1 2; if st then pure 2 else do let c ← below 8; pure (c + 1))
             let si2 : SInfo := { rate := 48000, channels := ch, bps, maxBlock := 4096 }
             let m ← genFrame false si2 true
-            let (fr, cls, must) ← mutateFrame m
-            pure (si2, fr, cls, must) : G _).run rng
+            if i % 8 == 5 then
+              -- a frame that is valid on its own but contradicts the STREAMINFO it is filed under
+              let k ← below 5
+              let (siHead, cls) : SInfo × String :=
+                if k == 0 && ch < 8 then ({ si2 with channels := ch + 1 }, "si-declares-more-channels")
+                else if k == 1 && ch > 1 then ({ si2 with channels := ch - 1 }, "si-declares-fewer-channels")
+                else if k == 2 then ({ si2 with rate := 44100 }, "si-declares-other-rate")
+                else if k == 3 && m.frame.hdr.blockSize > 1 then ({ si2 with maxBlock := m.frame.hdr.blockSize - 1 }, "si-max-block-smaller")
+                else ({ si2 with channels := if ch == 8 then 7 else ch + 1 }, "si-declares-other-channels")
+              pure (siHead, m.frame, cls, true)
+            else
+              let (fr, cls, must) ← mutateFrame m
+              pure (si2, fr, cls, must) : G _).run rng
           rng := r
           if fr.hdr.blockSize * fr.subs.length ≤ 400 then got2 := some (si2, fr, cls, must)
       let some (si2, fr, cls, must) := got2 | continue
